@@ -299,7 +299,12 @@ package main
 // ---- the proxy's event loop: membership events update the address index (C19) ----
 // (the three message handlers are summarised by their static mod sets here; their own contracts follow below)
 //@ func (*Proxy).handleRawMessage
-//@   noinline
+//@   props C07
+//@   requires rawMessage != nil && rawMessage.Message != nil && p.selfLearnRoute != nil && p.clientTransMgr != nil && p.resolver != nil && rawMessage.From != nil
+//@   ensures returns-message: result == rawMessage.Message && err == nil
+//@   ensures stamp-when-enabled: rawMessage.Message.request != nil && rawMessage.ReceivedSupport ==>
+//@        stamps == old(stamps) ++ seq1(rawMessage.Message) && stampAddr == old(stampAddr) ++ seq1(rawMessage.PeerAddr) && stampPort == old(stampPort) ++ seq1(rawMessage.PeerPort)
+//@   ensures no-stamp-otherwise: !(rawMessage.Message.request != nil && rawMessage.ReceivedSupport) ==> stamps == old(stamps) && stampAddr == old(stampAddr) && stampPort == old(stampPort)
 //@ func (*Proxy).handleDialog
 //@   noinline
 //@ func (*Proxy).HandleMessage
@@ -665,6 +670,9 @@ package main
 
 //@ func (*Message).SetReceived
 //@   props C07
+//@   event stamps: m
+//@   event stampAddr: peerAddr
+//@   event stampPort: peerPort
 //@   modifies Header.value, ViaParam.Params
 //@   ensures none: firstIdx(m.headers, "Via") < 0 ==> result != nil
 //@   ensures failed: result != nil ==> (forall h *Header :: h.value == old(h.value)) && (forall q *ViaParam :: old(allocated(q)) ==> q.Params == old(q.Params))
@@ -687,3 +695,27 @@ package main
 //@              ==> asRef(m.headers[firstIdx(m.headers, "Via")].value, "*Via").params[0].Params[j] == old(asRef(m.headers[firstIdx(m.headers, "Via")].value, "*Via").params[0].Params)[j])
 //@   ensures entry-list-kept: result == nil && isType(old(m.headers[firstIdx(m.headers, "Via")].value), "*Via") ==>
 //@        asRef(m.headers[firstIdx(m.headers, "Via")].value, "*Via").params == old(asRef(m.headers[firstIdx(m.headers, "Via")].value, "*Via").params)
+
+// ---- wiring of the no-received option into listeners (C07) ----
+
+//@ func NewProxyItem
+//@   props C07
+//@   event npiRS: receivedSupport
+//@   ensures err == nil && result != nil
+//@   ensures listeners-flag: forall k int :: 0 <= k && k < len(result.transports) ==>
+//@        (isType(result.transports[k], "*UDPServerTransport") ==> asRef(result.transports[k], "*UDPServerTransport").receivedSupport == receivedSupport)
+//@        && (isType(result.transports[k], "*TCPServerTransport") ==> asRef(result.transports[k], "*TCPServerTransport").receivedSupport == receivedSupport)
+
+//@ func NewProxy
+//@   event npRS: receivedSupport
+
+//@ func startProxy
+//@   props C07
+//@   ensures wiring-received: len(npiRS) >= len(old(npiRS)) && len(npiRS) <= len(old(npiRS)) + len(config.Listens)
+//@        && (forall k int :: len(old(npiRS)) <= k && k < len(npiRS) ==> npiRS[k] == !config.Listens[k - len(old(npiRS))].NoReceived)
+//@   ensures wiring-received-outbound: len(npRS) >= len(old(npRS)) && len(npRS) <= len(old(npRS)) + len(config.Listens)
+//@        && (forall k int :: len(old(npRS)) <= k && k < len(npRS) ==> npRS[k] == !config.Listens[k - len(old(npRS))].NoReceived)
+//@   loop 0:
+//@     invariant 0 <= $i && $i <= len(config.Listens) && len(npiRS) == len(old(npiRS)) + $i && len(npRS) == len(old(npRS)) + $i
+//@     invariant forall k int :: len(old(npiRS)) <= k && k < len(npiRS) ==> npiRS[k] == !config.Listens[k - len(old(npiRS))].NoReceived
+//@     invariant forall k int :: len(old(npRS)) <= k && k < len(npRS) ==> npRS[k] == !config.Listens[k - len(old(npRS))].NoReceived
